@@ -648,13 +648,16 @@ impl<'a> Interp<'a> {
         if let Some(k) = &key {
             op.insert("key".into(), json!(k));
         }
-        for f in ["entry", "algo", "chunks", "flush_after", "repoll", "stop_after", "end", "bufs", "check", "mid_after", "fully", "reads", "clock_at_commit", "cancel_polls", "abandon_chunks", "write_all", "vectored", "eof_reads", "to_end", "exact_first"] {
+        for f in ["entry", "algo", "chunks", "flush_after", "repoll", "stop_after", "end", "bufs", "check", "mid_after", "fully", "reads", "clock_at_commit", "cancel_polls", "abandon_chunks", "write_all", "vectored", "eof_reads", "to_end", "exact_first", "rm_at"] {
             if let Some(v) = st.get(f) {
                 op.insert(f.into(), v.clone());
             }
         }
         if let Some(vi) = st.get("val").and_then(|v| v.as_u64()) {
             op.insert("data".into(), self.val_spec(vi as usize));
+        }
+        if let Some(i) = st.get("rm_key").and_then(|v| v.as_u64()) {
+            op.insert("rm_key".into(), self.sc["keys"][i as usize].clone());
         }
         if let Some(a) = st.get("addr") {
             let s = self.addr(a);
@@ -1238,6 +1241,29 @@ impl<'a> Interp<'a> {
 
     fn judge_list(&mut self, st: &Value, r: &Value) {
         let flav = Self::flav(st);
+        // a key removed for good by the same caller between two items of the lazily consumed listing: it may or may
+        // not be listed; everything else must be, and no item may be an error
+        let rm_key: Option<String> = st.get("rm_key").and_then(|v| v.as_u64()).and_then(|i| self.sc["keys"][i as usize].as_str().map(|s| s.to_string()));
+        if let Some(k) = &rm_key {
+            let mut r2 = r.clone();
+            if let Some(items) = r2["entries"].as_array_mut() {
+                items.retain(|it| it["key"].as_str() != Some(k.as_str()));
+            }
+            let saved = self.m.keys.get(k).cloned();
+            if saved.is_some() {
+                self.m.keys.insert(k.clone(), None);
+            }
+            let mut st2 = st.clone();
+            st2.as_object_mut().map(|o| o.remove("rm_key"));
+            self.judge_list(&st2, &r2);
+            if let Some(sv) = saved {
+                self.m.keys.insert(k.clone(), sv);
+            }
+            let rst = json!({"k":"api","op":"remove_opts","fully":true,"key":k,"bin":st["bin"],"mode":"sync"});
+            self.judge_remove_opts(&rst, &r["rm"], k);
+            self.probe("listing_with_removal_inside");
+            return;
+        }
         if r["r"] != "ok" {
             self.viol("listing", format!("listing/{}/{}", flav, Self::bad_result_detail(r)), format!("listing failed: {}", r));
             return;
